@@ -75,6 +75,21 @@ Section Msg.
 
   Definition cmd_obj (rvals : list (string * option value)) : value := VStruct_ (TyN "Command") (rev rvals).
 
+  Definition bad_cc (pa : path) (ccz : Z) : M cmdres :=
+    fail (EValue (pchild pa "commandCode") (pname (p_cc T)) ccz VSCommandCodes).
+
+  (** the parameter area of a command and the end of the command *)
+  Definition cmd_params_step (pa : path) (cid aid : nat) (ccz : Z)
+             (v : list (string * option value)) (area : option value) (enc : bool) : M cmdres :=
+    match lookupZ ccz (cmd_params T) with
+    | Some pty =>
+        try_field [cid; aid] (dec_ty T abort pty (pchild pa "parameters") None enc)
+          (ret (mkCmdRes (cmd_obj v) (Some ccz) area)) (fun pv =>
+        assert_done abort cid ;;;
+        ret (mkCmdRes (cmd_obj (("parameters", pv) :: v)) (Some ccz) area))
+    | None => bad_cc pa ccz
+    end.
+
   Definition dec_command (pa : path) : M cmdres :=
     cid <- new_sc ;;
     aid <- new_sc ;;
@@ -93,21 +108,11 @@ Section Msg.
     let v3 := ("commandCode", ccv) :: v2 in
     let ccz := match as_int ccv with Some z => z | None => 0 end in
     let cc := Some ccz in
-    let bad_cc : M cmdres := fail (EValue (pchild pa "commandCode") (pname (p_cc T)) ccz VSCommandCodes) in
     match lookupZ ccz (cmd_handles T) with
     | Some hty =>
         try_field ids (dec_ty T abort hty (pchild pa "handles") None false)
           (ret (mkCmdRes (cmd_obj v3) cc None)) (fun hv =>
         let v4 := ("handles", hv) :: v3 in
-        let params (v : list (string * option value)) (area : option value) (enc : bool) : M cmdres :=
-          match lookupZ ccz (cmd_params T) with
-          | Some pty =>
-              try_field ids (dec_ty T abort pty (pchild pa "parameters") None enc)
-                (ret (mkCmdRes (cmd_obj v) cc area)) (fun pv =>
-              assert_done abort cid ;;;
-              ret (mkCmdRes (cmd_obj (("parameters", pv) :: v)) cc area))
-          | None => bad_cc
-          end in
         if match as_int tagv with Some z => z =? st_sessions T | None => false end then
           try_field ids (dec_prim abort (p_size32 T) (pchild pa "authSize"))
             (ret (mkCmdRes (cmd_obj v4) cc None)) (fun asv =>
@@ -119,11 +124,11 @@ Section Msg.
             (ret (mkCmdRes (cmd_obj v5) cc None)) (fun area =>
           let v6 := ("authorizationArea", area) :: v5 in
           match is_param_enc (sess_attr_field T) (mask_decrypt T) area with
-          | Some enc => params v6 area enc
+          | Some enc => cmd_params_step pa cid aid ccz v6 area enc
           | None => internal_ IAuthNone
           end))
-        else params v4 None false)
-    | None => bad_cc
+        else cmd_params_step pa cid aid ccz v4 None false)
+    | None => bad_cc pa ccz
     end))).
 
   (** [size_constraints.assert_done()]: every listed constraint must be obsolete by now *)
@@ -132,6 +137,30 @@ Section Msg.
     if forallb (fun i => sc_obs (get_sc s i)) (lst s) then ret tt else internal_ IListNotDone.
 
   Definition rsp_obj (rvals : list (string * option value)) : value := VStruct_ (TyN "Response") (rev rvals).
+
+  Definition rsp_finish (rid : nat) (v : list (string * option value)) : M value :=
+    assert_done abort rid ;;; list_assert_done ;;; ret (rsp_obj v).
+
+  (** parameters, [parameterSize] check, session area, end of the response *)
+  Definition rsp_rest (pa : path) (rid pid : nat) (cc : option Z) (enc sessions : bool)
+             (v : list (string * option value)) (have_psize : bool) : M value :=
+    match match cc with Some c => lookupZ c (rsp_params T) | None => None end with
+    | None => internal_ IRspNoCommandCode
+    | Some pty =>
+        try_field [rid; pid] (dec_ty T abort pty (pchild pa "parameters") None enc) (ret (rsp_obj v)) (fun pv =>
+        let v' := ("parameters", pv) :: v in
+        (if have_psize then assert_done abort pid else ret tt) ;;;
+        if sessions then
+          try_field [rid; pid] (dec_sized_array (list_id (t_auth_rsp T)) (pchild pa "authorizationArea") rid
+                           (fun p => dec_ty T abort (t_auth_rsp T) p None false))
+            (ret (rsp_obj v')) (fun area =>
+          match is_param_enc (sess_attr_field T) (mask_encrypt T) area with
+          | Some e => if Bool.eqb e enc then rsp_finish rid (("authorizationArea", area) :: v')
+                      else internal_ IRspEncMismatch
+          | None => internal_ IAuthNone
+          end)
+        else rsp_finish rid v')
+    end.
 
   Definition dec_response (pa : path) (cc : option Z) (enc : bool) : M value :=
     rid <- new_sc ;;
@@ -146,39 +175,19 @@ Section Msg.
     set_constraint abort rid (pchild pa "responseSize") (match as_int szv with Some z => z | None => 0 end) ;;;
     try_field ids (dec_prim abort (p_rc T) (pchild pa "responseCode")) (ret (rsp_obj v2)) (fun rcv =>
     let v3 := ("responseCode", rcv) :: v2 in
-    let finish (v : list (string * option value)) : M value :=
-      assert_done abort rid ;;; list_assert_done ;;; ret (rsp_obj v) in
-    if match as_int rcv with Some z => negb (z =? rc_success T) | None => true end then finish v3
+    if match as_int rcv with Some z => negb (z =? rc_success T) | None => true end then rsp_finish rid v3
     else
     match match cc with Some c => lookupZ c (rsp_handles T) | None => None end with
     | Some hty =>
         let sessions := match as_int tagv with Some z => z =? st_sessions T | None => false end in
         try_field ids (dec_ty T abort hty (pchild pa "handles") None enc) (ret (rsp_obj v3)) (fun hv =>
         let v4 := ("handles", hv) :: v3 in
-        let rest (v : list (string * option value)) (have_psize : bool) : M value :=
-          match match cc with Some c => lookupZ c (rsp_params T) | None => None end with
-          | None => internal_ IRspNoCommandCode
-          | Some pty =>
-          try_field ids (dec_ty T abort pty (pchild pa "parameters") None enc) (ret (rsp_obj v)) (fun pv =>
-          let v' := ("parameters", pv) :: v in
-          (if have_psize then assert_done abort pid else ret tt) ;;;
-          if sessions then
-            try_field ids (dec_sized_array (list_id (t_auth_rsp T)) (pchild pa "authorizationArea") rid
-                             (fun p => dec_ty T abort (t_auth_rsp T) p None false))
-              (ret (rsp_obj v')) (fun area =>
-            match is_param_enc (sess_attr_field T) (mask_encrypt T) area with
-            | Some e => if Bool.eqb e enc then finish (("authorizationArea", area) :: v')
-                        else internal_ IRspEncMismatch
-            | None => internal_ IAuthNone
-            end)
-          else finish v')
-          end in
         if sessions then
           try_field ids (dec_prim abort (p_size32 T) (pchild pa "parameterSize")) (ret (rsp_obj v4)) (fun psv =>
           set_constraint abort pid (pchild pa "parameterSize") (match as_int psv with Some z => z | None => 0 end) ;;;
           append_lst pid ;;;
-          rest (("parameterSize", psv) :: v4) true)
-        else rest v4 false)
+          rsp_rest pa rid pid cc enc sessions (("parameterSize", psv) :: v4) true)
+        else rsp_rest pa rid pid cc enc sessions v4 false)
     | None => internal_ IRspNoCommandCode
     end))).
 
